@@ -252,6 +252,9 @@ def handle (st : DrvState) (op : String) (a : List Int) : DrvState × String :=
     let (out, n) := Punct.punctureBytes (pmat P.toNat) xs prev
     (st, joinNats (n :: out))
   | "call_enc", v => (st, joinNats (Call.encode ((v.map Int.toNat) ++ List.replicate (10 - v.length) 0)))
+  | "call_enc_s", v => (st, match Call.encodeStrict ((v.map Int.toNat) ++ List.replicate (10 - v.length) 0) with
+                            | some a => joinNats a
+                            | none => "throw")
   | "call_dec", v => (st, joinNats (Call.decode (v.map Int.toNat)))
   | "prbs_gen", n :: rest =>
     let g := match rest with | [x] => x.toNat | _ => Gen.prbsInitState
